@@ -1,3 +1,4 @@
+import SamlModel.Props.RedirectSigGen
 import SamlModel.Tok
 import SamlModel.Lib.Strings
 import SamlModel.Lib.Base64
@@ -171,6 +172,12 @@ def run (ts : List String) : Option String :=
       if i < 0 then pure (toString i ++ " " ++ (if s.toList.contains c then "1" else "0"))
       else pure (toString i ++ " " ++ (if s.toList.contains c then "1" else "0") ++ " " ++ " ".intercalate (enc (byteTake s i) ++ enc (byteDrop s i)))
     | _ => none
+  | ["reqoctets", a, b, c] => do
+    -- the octets the regenerated ServiceProvider.ValidateRedirectSignature hands to the verifier (RedirectSigGen.octets)
+    let (req, _) ← (dec [a] : Option (String × _))
+    let (relay, _) ← (dec [b] : Option (String × _))
+    let (alg, _) ← (dec [c] : Option (String × _))
+    pure (" ".intercalate (enc (String.ofList (RedirectSigGen.octets req relay alg))))
   | ["qesc", t] => do
     let (s, _) ← (dec [t] : Option (String × _))
     pure (" ".intercalate (enc (queryEscape s)))
